@@ -564,6 +564,9 @@ const fn mul(a: u64, b: u64) -> u64 {
 #[inline(always)]
 #[allow(clippy::many_single_char_names)]
 fn inv(x: u64) -> u64 {
+    // x can be in [0, 2M) range; reduce it to [0, M) so that a non-normalized zero (x = M) is
+    // also mapped to zero instead of never terminating
+    let x = normalize(x);
     if x == 0 {
         return 0;
     };
